@@ -49,6 +49,7 @@ def gen_cases(tier, seed):
         nt = [2, 0][k % 2]
         dev = zoo.gen_device(rng, n_terminals=nt, n_holes=0, probes=0, size="small")
         o = S.base_options(rng, adaptive=True, steps=60)
+        o.update(dt_max=0.01, dt_init=1e-3, solve_time=0.4)  # (well inside the explicit stability bound of these meshes, see C17)
         o["field_units"] = ["mT", "T"][k % 2]
         o["current_units"] = ["A", "mA"][k % 2]
         bw = [1e-6, 1e-9][k % 2]
